@@ -479,6 +479,8 @@ def r10_4(ctx):
         # render loops: `for renderable in <var>` after the hook loop must see the hook assignment as a reaching def
         hook_loop = f.module.parent_of.get(hook_assign.stmt)
         inside = {id(x) for x in ast.walk(hook_loop)}
+        # "after the hook loop" by control flow, not by position (inlined helper bodies share the line of their call)
+        after_hooks = g.reach(g.nodes_of(hook_loop)) - {nid_ for st_ in ast.walk(hook_loop) if isinstance(st_, ast.stmt) for nid_ in g.nodes_of(st_)}
 
         def _uses(n):
             e = n.expr if getattr(n, "expr", None) is not None else (n.stmt.iter if n.kind == "for" else n.stmt)
@@ -487,7 +489,7 @@ def r10_4(ctx):
             roots = [n.stmt.iter] if n.kind == "for" else ([n.expr] if n.kind == "test" and n.expr is not None else [n.stmt])
             if n.kind not in ("for", "test", "stmt"):
                 return False
-            return any(isinstance(x, ast.Name) and x.id == var and isinstance(x.ctx, ast.Load) for r in roots for x in ast.walk(r)) and n.stmt.lineno > hook_loop.lineno
+            return any(isinstance(x, ast.Name) and x.id == var and isinstance(x.ctx, ast.Load) for r in roots for x in ast.walk(r)) and n.id in after_hooks
         loops = [n for n in g.stmt_nodes() if n.stmt is not None and _uses(n)]
         ok_loops = bool(loops) and all(hook_assign.id in rd.get(l.id, {}).get(var, set()) for l in loops)
         ctx.check(ok_arg and ok_loops, f.fq, short(hook_assign.stmt), f"{f.module.relpath}:{hook_assign.lineno}", f"{f.name}: hooks applied to `{var}` before the render loop(s) ({len(loops)})",
